@@ -586,7 +586,11 @@ func emitPathsAreasAndRelations(source ingest.FeatureSource, o *Options, s *enco
 			}
 			relations[g].FromFeature(feature.(*ingest.RelationFeature), s, nt)
 			relations[g].Relations = summary.RelationMembers.FillReferences(relations[g].Relations[0:0], feature.FeatureID(), nt)
-			n := relations[g].Marshal(b6.FeatureTypePath, &osmNamespaces, buffers[g])
+			// Marshal against the namespaces of the block the relation is written
+			// to (see addFeatureBlockBuilder), since that's what readers use.
+			nss := osmNamespaces
+			nss[b6.FeatureTypeRelation] = nt.Encode(feature.(*ingest.RelationFeature).RelationID.Namespace)
+			n := relations[g].Marshal(b6.FeatureTypePath, &nss, buffers[g])
 			eid := FeatureID{Namespace: nt.Encode(feature.(*ingest.RelationFeature).RelationID.Namespace), Type: b6.FeatureTypeRelation, Value: feature.(*ingest.RelationFeature).RelationID.Value}
 			emit(eid, encoding.NoTag, buffers[g][0:n])
 		}
